@@ -337,3 +337,28 @@ MUTANTS += [
     M('sib-rs2m-setavail-order', ['C01', 'C02', 'C10'], RS2API, '		if (i < ofcb->nb_source_symbols)\n		{\n			ofcb->nb_available_source_symbols++;\n		}\n		ofcb->nb_available_symbols++;', '		if (i <= ofcb->nb_source_symbols)\n		{\n			ofcb->nb_available_source_symbols++;\n		}\n		ofcb->nb_available_symbols++;', 'R-', count=1),
     M('benign-sib-trace', ['C02', 'C01'], A28C, '	c[k-1] = p[0] ;	/* really -p(0), but x = -x in GF(2^m) */', '	OF_TRACE_LVL (2, ("vdm k=%d\\n", k))\n	c[k-1] = p[0] ;	/* really -p(0), but x = -x in GF(2^m) */', expect=0, count=1),
 ]
+
+MUTANTS += [
+    # ---- R-ACCUM-INIT, R-SWAR, R-HW32-TABLE, R-HW-ARRAY, R-ROWDEG2
+    M('accum-init-dropped', 'C14', RS8, '	of_rs_gf_exp[GF_BITS] = 0; /* will be updated at the end of the 1st loop */\n', '', 'R-ACCUM-INIT'),
+    M('swar-64-m8', 'C18', HW, '	x = (x + (x >> 4)) & of_m4;', '	x = (x + (x >> 4)) & of_m8;', 'R-SWAR'),
+    M('swar-64-shift', 'C18', HW, '	return (x * of_h01) >> 56;', '	return (x * of_h01) >> 48;', 'R-SWAR'),
+    M('swar-64-no-mask', 'C18', HW, '	x = (x & of_m2) + ( (x >> 2) & of_m2);', '	x = x + (x >> 2);', 'R-SWAR'),
+    M('swar-32-1f', 'C18', HW, '	return (res + (res >> 16)) & 0x000000FF;', '	return (res + (res >> 16)) & 0x0000001F;', 'R-SWAR'),
+    M('swar-32-shift', 'C18', HW, '	res = res + (res >> 8);', '	res = res + (res >> 4);', 'R-SWAR'),
+    M('benign-swar-32-3f', 'C18', HW, '	return (res + (res >> 16)) & 0x000000FF;', '	return (res + (res >> 16)) & 0x0000003F;', expect=0),
+    M('benign-swar-64-and-first', 'C18', HW, '	x -= (x >> 1) & of_m1; ', '	x = (x & of_m1) + ((x >> 1) & of_m1); ', expect=0),
+    M('hw32-table-byte-twice', 'C18', HW, '+ of_hw8table[w8[2]] + of_hw8table[w8[3]];', '+ of_hw8table[w8[2]] + of_hw8table[w8[2]];', 'R-HW32-TABLE'),
+    M('hw-array-rem', 'C18', HW, '	if (array_size_32_rem > 0)\n', '	if (array_size_32_rem > 1)\n', 'R-HW-ARRAY'),
+    M('hw-array-odd-word-dropped', 'C18', HW, '	if (array_size64rem > 0)\n	{\n		v32 = (UINT32*) v64;', '	if (array_size64rem > 1)\n	{\n		v32 = (UINT32*) v64;', 'R-HW-ARRAY'),
+    M('hw-array-overread', 'C18', HW, '	array_size64	= array_size_32 >> 1;', '	array_size64	= (array_size_32 + 1) >> 1;', 'R-HW-ARRAY'),
+    M('rowdeg2-else-if', ['C05', 'C06'], PCHKC, '		e = of_mod2sparse_first_in_row (pchkMatrix, i);\n		if (of_mod2sparse_at_end (of_mod2sparse_next_in_row (e)) && nbDataCols > 1)',
+      '		else if (of_mod2sparse_at_end (of_mod2sparse_next_in_row (e)) && nbDataCols > 1)', 'R-ROWDEG2'),
+    M('rowdeg2-same-col-allowed', ['C05', 'C06'], PCHKC, '			while (j == of_mod2sparse_col (e));\n			of_mod2sparse_insert (pchkMatrix, i, j);\n			added ++;',
+      '			while (0);\n			of_mod2sparse_insert (pchkMatrix, i, j);\n			added ++;', 'R-ROWDEG2'),
+    M('benign-rowdeg2-refetch-kept', ['C05', 'C06'], PCHKC, '		if (of_mod2sparse_at_end (of_mod2sparse_next_in_row (e)) && nbDataCols > 1)',
+      '		if (nbDataCols > 1 && of_mod2sparse_at_end (of_mod2sparse_next_in_row (e)))', expect=0),
+    # a slip in a Reed-Solomon GF kernel breaks C13/C07/C01/C06 but not the dense solver (C18 analyses the XOR kernels only)
+    M('gf-kernel-overrun', ['C13', 'C07'], A24C, '        for (; dst < lim ;dst += UNROLL, src += UNROLL)', '        for (; dst <= lim ;dst += UNROLL, src += UNROLL)', 'R-KEA', count=2),
+    M('gf-kernel-overrun-not-c18', 'C18', A24C, '        for (; dst < lim ;dst += UNROLL, src += UNROLL)', '        for (; dst <= lim ;dst += UNROLL, src += UNROLL)', expect=0, count=2),
+]
